@@ -309,6 +309,17 @@ func hangScenarios() []*Scenario {
 	return out
 }
 
+// progNoSig: the same program with plugin steps that have no cancel signal handler
+func progNoSig(p *Program, name string) *Program {
+	q := *p
+	q.Name = name
+	q.Steps = append([]Step{}, p.Steps...)
+	for i := range q.Steps {
+		q.Steps[i].PluginStep = "nosig"
+	}
+	return &q
+}
+
 // programs for the cancellation driver
 func cancelPrograms() []*Program {
 	noSig := func(p *Program, name string) *Program {
@@ -453,6 +464,7 @@ func catalogue() []*Program {
 	return []*Program{
 		progLoopSibling(),
 		progDeployDep(), progDeployDepStop(), progWaitForList(), progWaitForListLoop(), progLoopItemsFrom(),
+		progNoSig(progChain(2), "chain2-nosig"), progNoSig(progFanIn(), "fanin-nosig"),
 		progSumExpr(), progSumExpr2(), progSumInts(), progStopEnable(),
 		progEnabledLit("enabledlit-false", false), progEnabledLit("enabledlit-true", true), progEnabledLit("enabledlit-no", "no"),
 		progForeachEnabledLit("loopenabledlit-true", true), progForeachEnabledLit("loopenabledlit-off", "off"),
@@ -765,6 +777,13 @@ func evalFailPrograms() []*Program {
 				{"ok", O("x", E("10 / $.input.n"), "y", E(sv("a")))},
 				{"bad", E("$.steps.a.outputs.error")}}})}}
 		}),
+		// a loop whose parallelism comes from the input: zero and negative values are schema-valid integers
+		func() *Program {
+			p := progForeach(subProg(), 0)
+			p.Name = "evalloopar"
+			p.Steps[0].Parallelism = E("$.input.n")
+			return p
+		}(),
 		two("evalwait2", O("v", E("$.input.l[2]")), func(p *Program) {
 			p.Steps[1].WaitFor = E("$.steps.a.outputs")
 			p.Steps = append(p.Steps, Step{ID: "c", Input: O("v", E("10 / $.input.n")), WaitFor: E("$.steps.a.outputs")})
@@ -779,5 +798,6 @@ func evalFailInputs() []map[string]any {
 		{"n": 5},
 		{"n": -9223372036854775807, "s": "NaN", "l": []any{}},
 		{"n": 1, "s": "true", "l": []any{3, 4, 5}},
+		{"n": -1, "s": "0", "l": []any{0}},
 	}
 }
